@@ -408,14 +408,17 @@ def hit(mode, s, e, qs, qe):
 def _gen_query(rng, tier, i):
     """exhaustive: <= 2 rows x <= 2 queries over coordinates 0..4 (quick; <= 2 x <= 3 over 0..6 thorough) on 1-2
     chromosomes, all three modes, keep_empty on/off; then random nested/duplicated/abutting tables"""
-    p = _pair_from_index(i // 6, tier, rng) if i < 6 * _n_exh(tier) else None
     mode = ("outer", "inner", "trim")[i % 3]
     keep = bool((i // 3) % 2)
-    if p is not None:
+    # random tables (with filtered receivers) first: a time budget that runs out must cut the enumeration, not them
+    n_rand = 600 if tier == "quick" else 6000
+    if i >= n_rand:
+        j = i - n_rand
+        p = _pair_from_index(j // 6, tier, rng) if j < 6 * _n_exh(tier) else None
+        if p is None:
+            return None
         a, b = _decorate(p[0], p[1], rng)
         return dict(a=a, b=b, mode=mode, keep_empty=keep)
-    if i >= 6 * _n_exh(tier) + (600 if tier == "quick" else 6000):
-        return None
     small = rng.random() < 0.6
     single = rng.random() < 0.3
     ch = ("chr1",) if single else ("chr1", "chr2", "chrX")
